@@ -3,6 +3,7 @@ import PyYetiVerif.Model.UsetUp
 import PyYetiVerif.Model.Locate
 import PyYetiVerif.Model.UsetXyz
 import PyYetiVerif.Model.UsetTran
+import PyYetiVerif.Model.UsetTranShapes
 /-! Line protocol for C18.  A request is `op args | section | section …`; sections hold
 space-separated integers (matrix rows are separated by `;`).  Replies: `ok …` with sections
 separated by ` | `, or `value-error` / `index-error` / `key-error` / `type-error` /
@@ -37,6 +38,8 @@ separated by ` | `, or `value-error` / `index-error` / `key-error` / `type-error
   ftran <se> <gset> 1 <g>|2 | (five nas sections) | got | goq | gm | pha | phg | request
                                -> ok nr nc : entries | id dof …            (formtran; a matrix section is `se : nr nc v … ; …`)
   fulvs <seup> <sedn> <keepcset> <shortcut> <gset> | (5) | (5 matrices) | ulvs      -> ok one / ok nr nc : entries   (formulvs)
+  fshapes <seup> <sedn> <keepcset> <gset> | (5) | (5 matrices)      -> ok <0|1> | nr nc ; nr nc ; …   (shapesTest: the levels of
+                               the loop of formulvs from seup down to sedn: ShapesAgree, then rows / columns of each level)
   fdrm <seup> <sedn> <gset> 1 <g>|2 | (5) | (5 matrices) | ulvs | request           -> ok nr nc : entries | id dof …  (formdrm)
   qftran / qfulvs / qfdrm                      the same three with rational entries `n/d` (the nas2cam files of pyYeti's tests;
                                                qfulvs, qfdrm without the ulvs section), replies with rational entries
@@ -284,6 +287,12 @@ def answer (line : String) : String :=
       | some seup, some sedn, some nt, some ul =>
           replyT (formulvs (fun i d => [(i : Int), (d : Int)]) mks nt ul seup sedn (kc = "1") (sc = "1") (gset = "1")) showU
       | _, _, _, _ => "bad-op"
+  | ["fshapes", seup, sedn, kc, gset], [s1, s2, s3, s4, s5, a, b, c, d, e] =>
+      match seup.toNat?, sedn.toNat?, nasTOf [s1, s2, s3, s4, s5, a, b, c, d, e] with
+      | some seup, some sedn, some nt =>
+          replyT (shapesTest (fun i d => [(i : Int), (d : Int)]) mks nt seup sedn (kc = "1") (gset = "1"))
+            (fun r => (if r.1 then "1" else "0") ++ " | " ++ " ; ".intercalate (r.2.map fun m => s!"{m.r.length} {m.c}"))
+      | _, _, _ => "bad-op"
   | "fdrm" :: seup :: sedn :: gset :: kind, [s1, s2, s3, s4, s5, a, b, c, d, e, u, rq] =>
       match seup.toNat?, sedn.toNat?, nasTOf [s1, s2, s3, s4, s5, a, b, c, d, e], ulvsOf u, request kind rq with
       | some seup, some sedn, some nt, some ul, some rq =>
